@@ -11,6 +11,7 @@ mod chn;
 mod lm;
 mod ft;
 mod pipe;
+mod mrg;
 
 pub use rng::Rng;
 
@@ -31,6 +32,7 @@ fn area(name: &str) -> Box<dyn Area> {
         "lw" => Box::new(dp::Lw),
         "ft" => Box::new(ft::Ft),
         "pipe" => Box::new(pipe::Pipe),
+        "mrg" => Box::new(mrg::Mrg),
         _ => {
             eprintln!("unknown area {}", name);
             std::process::exit(2)
